@@ -69,10 +69,10 @@ def spec_tensors(S, cfg, step, pg, Ng):
   return dict(gt=gt, vnew=vnew, a=a, d=d, lr_t=lr_t)
 
 
-def mk_transform(cfg):
+def mk_transform(cfg, beta2_one=False):
 
   def t(ctx, it):
-    S = D.Setup(ctx, it, cfg)
+    S = D.Setup(ctx, it, cfg, beta2_one=beta2_one)
     state = S.param_state(n_stats=0 if cfg.skip else 2)
     pg = T.opaque("pg", S.dims)
     calls = []
@@ -390,6 +390,12 @@ def tasks(tier):
   cfgs = list(D.all_cfgs())
   for cfg in cfgs:
     ts.append(Task(f"_transform_grad[{cfg.name()}]", mk_transform(cfg)))
+  # beta2 == 1 (AdaGrad-like accumulation, w2 = 1): the RMSProp graft accumulator is nu' = nu + g^2 (seed C05-g)
+  seen_b1 = set()
+  for cfg in cfgs:
+    if cfg.graft.startswith("RMSPROP") and cfg.graft not in seen_b1:
+      seen_b1.add(cfg.graft)
+      ts.append(Task(f"_transform_grad[{cfg.name()},beta2=1]", mk_transform(cfg, beta2_one=True)))
   for b1 in (False, True):
     for r in (1, 2, 3):
       for gt1 in (False, True):
